@@ -921,7 +921,71 @@ def run_solver(case, ctx):
 # libFuzzer executions per shard and @given test of the coverage-guided extra of the thorough tier (vp/fuzz.py)
 FUZZ = 2000
 
+# =========================================================================== a measure collapse, applied
+@st.composite
+def apply_cases(draw, tier):
+    """what solver.Collapse() installs for weight / position collapses: constraints.impose_measure(npts, tracking, noweight).
+    Every measure keeps one point ('keeper') with positive weight that no collapse touches as a loser."""
+    nm = draw(st.integers(1, 3))
+    npts = [draw(st.integers(2, 5)) for _ in range(nm)]
+    x = []; tracking = {}; noweight = {}
+    for k, n in enumerate(npts):
+        keeper = draw(st.integers(0, n - 1))
+        w = [draw(st.sampled_from([0.0, 0.25, 0.5, 0.125, 1.0])) for _ in range(n)]
+        w[keeper] = draw(st.sampled_from([0.25, 0.5, 1.0]))
+        pos = [draw(st.sampled_from([0.0, 1.0, 1.00390625, 2.5, -1.5, 3.0, 4.0, 0.5])) for _ in range(n)]
+        x.append((w, pos))
+        if draw(st.booleans()):
+            pairs = set()
+            for _ in range(draw(st.integers(1, 4))):        # (several pairs: chains, a pair that bridges two groups)
+                i = draw(st.integers(0, n - 1)); j = draw(st.integers(0, n - 1))
+                if i != j and j != keeper:
+                    pairs.add((min(i, j), max(i, j)) if max(i, j) != keeper else (max(i, j), min(i, j)))
+            pairs = set(p for p in pairs if p[1] != keeper)
+            if pairs:
+                tracking[k] = sorted(pairs)
+        if draw(st.booleans()):
+            idx = set(i for i in range(n) if i != keeper and draw(st.integers(0, 2)) == 0)
+            if idx:
+                noweight[k] = sorted(idx)
+    flat = []
+    for w, pos in x:
+        flat += w + pos
+    return dict(npts=npts, x=flat, tracking={str(k): [list(p) for p in v] for k, v in tracking.items()},
+                noweight={str(k): v for k, v in noweight.items()})
+
+
+def run_apply(case, ctx):
+    from mystic.constraints import impose_measure
+    npts = tuple(case['npts'])
+    tracking = {int(k): set(tuple(p) for p in v) for k, v in case['tracking'].items()}
+    noweight = {int(k): set(v) for k, v in case['noweight'].items()}
+    x = FL(case['x'])
+    fn = impose_measure(npts, tracking, noweight)(lambda v: v)
+    y = [float(v) for v in fn(list(x))]
+    ctx.expect(len(y) == len(x), 'C11.measure_applied', lambda: dict(case, result=y, note='length changed'))
+    off = 0
+    both = False
+    for k, n in enumerate(npts):
+        w0 = x[off:off + n]; w1 = y[off:off + n]; p1 = y[off + n:off + 2 * n]
+        det = lambda: dict(measure=k, npts=list(npts), tracking=case['tracking'], noweight=case['noweight'], x=x, result=y)
+        for i, j in tracking.get(k, ()):
+            ctx.expect(p1[i] == p1[j], 'C11.measure_applied',
+                       lambda: dict(det(), pair=[i, j], note='positions of a collapsed pair differ after the collapse was applied'))
+        for i in noweight.get(k, ()):
+            ctx.expect(w1[i] == 0.0, 'C11.measure_applied', lambda: dict(det(), index=i, note='a collapsed weight is not zero'))
+        ctx.expect(abs(sum(w1) - sum(w0)) <= 1e-12 * max(1.0, sum(w0)), 'C11.measure_applied',
+                   lambda: dict(det(), note='total weight of the measure changed', before=sum(w0), after=sum(w1)))
+        if k in tracking and k in noweight:
+            both = True
+        off += 2 * n
+    ctx.label('measures:%d' % len(npts))
+    if both: ctx.label('weight-and-position-collapse-of-one-measure')
+    ctx.nontrivial(bool(tracking) or bool(noweight))
+
+
 TESTS = [
+    Test('apply', run_apply, strategy=lambda tier: apply_cases(tier), examples={'quick': 3000, 'thorough': 60000}),
     Test('at', run_at, strategy=lambda tier: at_cases(tier), examples={'quick': 8000, 'thorough': 300000}),
     Test('as', run_as, strategy=lambda tier: as_cases(tier), examples={'quick': 8000, 'thorough': 300000}),
     Test('measure', run_measure, strategy=lambda tier: measure_cases(tier), examples={'quick': 4000, 'thorough': 150000}),
